@@ -121,6 +121,7 @@ inductive Undo where
   | putMetSlot (m : Id) (k : MetSlot)   -- undo of Model.add_metabolites / remove_metabolites: the metabolite and its solver row as they were
   | populate (r : Id)                   -- `_populate_solver([reaction])`
   | imul (r : Id) (k : Rat)             -- `reaction.__imul__(1 / coefficient)`
+  | setHasG (g : Id) (b : Bool)         -- `model.genes.add(gene)` (undo of an orphaned gene leaving with its last reaction)
 
 structure Sys where
   s : St
@@ -317,6 +318,7 @@ def runUndo (s : St) : Undo → Except Err St
   | .putMetSlot m k => .ok (putMetSlot s m k)
   | .populate r => .ok (populateRaw s r)
   | .imul r k => imulRaw s r k
+  | .setHasG g b => .ok { s with hasG := upd s.hasG g b }
 
 /-- `HistoryManager.reset`: newest first; an undo function that raises ends the replay -/
 def replay (s : St) : List Undo → St × Option Err
@@ -342,6 +344,9 @@ inductive Op where
   | addRxn (r : Id) (lb ub : EB) (ps : List (Id × Rat))
   | addMet (m : Id)
   | rmMet (m : Id)
+  | rmMetD (m : Id)                  -- remove_metabolites([m], destructive=True)
+  | removeRxnO (r : Id)              -- remove_reactions([r], remove_orphans=True)
+  | removeRxns (rs : List Id) (orphans : Bool)   -- remove_reactions([…]): identifiers that are not in the model are skipped with a warning
   | imul (r : Id) (k : Rat)
   | enter
   | exit
@@ -453,6 +458,56 @@ def rmMet (y : Sys) (m : Id) : Sys :=
   let y2 := if inCtx y1 then push y1 (.putMetSlot m (getMetSlot y1.s m)) else y1
   { y2 with s := dropMetRaw y1.s m }
 
+/-- the loop of `remove_metabolites(…, destructive=True)`: every reaction that lists the metabolite is removed from the model
+    (`x2.remove_from_model()`, i.e. `model.remove_reactions([x2])`) -/
+def rmMetDLoop (m : Id) : List Id → Sys → Sys
+  | [], y => y
+  | r :: rs, y =>
+    if y.s.mr m r then rmMetDLoop m rs (removeRxn y r)
+    else rmMetDLoop m rs y
+
+/-- `model.remove_metabolites([m], destructive=True)` -/
+def rmMetD (y : Sys) (m : Id) : Sys :=
+  let y1 := rmMetDLoop m y.s.univR y
+  let y2 := if inCtx y1 then push y1 (.putMetSlot m (getMetSlot y1.s m)) else y1
+  { y2 with s := dropMetRaw y1.s m }
+
+/-! ### `model.remove_reactions([r], remove_orphans=True)` -/
+
+/-- `len(met._reaction) == 0` / `len(gene._reaction) == 0` -/
+def orphanM (s : St) (m : Id) : Bool := s.univR.all (fun x => !s.mr m x)
+def orphanG (s : St) (g : Id) : Bool := s.univR.all (fun x => !s.gr g x)
+
+/-- the metabolites of the removed reaction that no reaction lists any more leave the model: `self.remove_metabolites(met)` -/
+def orphanMetLoop (r : Id) : List Id → Sys → Sys
+  | [], y => y
+  | m :: ms, y =>
+    if decide (y.s.st r m ≠ 0) && y.s.hasM m && orphanM y.s m then orphanMetLoop r ms (rmMet y m)
+    else orphanMetLoop r ms y
+
+/-- `self.genes.remove(gene)`, recorded -/
+def dropGene (y : Sys) (g : Id) : Sys :=
+  let y1 := if inCtx y then push y (.setHasG g true) else y
+  { y1 with s := { y.s with hasG := upd y.s.hasG g false } }
+
+def orphanGeneLoop (r : Id) : List Id → Sys → Sys
+  | [], y => y
+  | g :: gs, y =>
+    if y.s.rg r g && y.s.hasG g && orphanG y.s g then orphanGeneLoop r gs (dropGene y g)
+    else orphanGeneLoop r gs y
+
+def removeRxnO (y : Sys) (r : Id) : Sys :=
+  let y1 := removeRxn y r
+  let y2 := orphanMetLoop r y1.s.univM y1
+  orphanGeneLoop r y2.s.univG y2
+
+/-- `remove_reactions(list, remove_orphans)`: one reaction after the other; what is not (or no longer) in the model is skipped -/
+def removeRxns (orphans : Bool) : List Id → Sys → Sys
+  | [], y => y
+  | r :: rs, y =>
+    if y.s.hasR r then removeRxns orphans rs (if orphans then removeRxnO y r else removeRxn y r)
+    else removeRxns orphans rs y
+
 /-- `reaction *= k` -/
 def imul (y : Sys) (r : Id) (k : Rat) : Sys × Option Err :=
   let y1 : Sys := { y with s := scaleSt y.s r k }
@@ -493,6 +548,9 @@ def apply (y : Sys) : Op → Sys × Option Err
     if y.s.hasM m then (y, none)                       -- an id that is taken: filtered out, nothing happens
     else (addMet y m, none)
   | .rmMet m => if y.s.hasM m then (rmMet y m, none) else (y, none)       -- metabolites that are not in the model are filtered out
+  | .removeRxnO r => if y.s.hasR r then (removeRxnO y r, none) else (y, some .key)
+  | .removeRxns rs orphans => (removeRxns orphans rs y, none)
+  | .rmMetD m => if y.s.hasM m then (rmMetD y m, none) else (y, none)
   | .imul r k =>
     if !y.s.hasR r then (y, some .key)
     else if k = 0 then (y, some .type)                 -- outside the modelled fragment (never sent by the harness)
